@@ -11,6 +11,8 @@ vf.build_repo()
 import glob
 for src in sorted(glob.glob(os.path.join(vf.HARNESS, "*.cpp"))):
     name = os.path.basename(src)[:-4]
+    if name == "crashprobe":
+        continue        # built by check C20 against the sanitizer build of the library (build/asan)
     try:
         import importlib
         vf.build_harness(name, **vf.HARNESS_OPTS.get(name, {}))
